@@ -304,6 +304,29 @@ def plain_assignments(tree: ast.Module) -> ast.Module:
                 return n
             return ast.copy_location(ast.Assign(targets=[n.target], value=n.value, lineno=n.lineno), n)
     t2 = T().visit(copy.deepcopy(tree))
+
+    # `a = b[k] = v`  ==>  `a = v` ; `b[k] = a`   (v is evaluated once, targets are assigned left to right)
+    def split(stmts):
+        out = []
+        for st in stmts:
+            for f_ in ("body", "orelse", "finalbody"):
+                b = getattr(st, f_, None)
+                if isinstance(b, list) and b and isinstance(b[0], ast.stmt):
+                    setattr(st, f_, split(b))
+            if isinstance(st, ast.Try):
+                for h in st.handlers:
+                    h.body = split(h.body)
+            if isinstance(st, ast.Assign) and len(st.targets) > 1 and isinstance(st.targets[0], ast.Name):
+                first = st.targets[0]
+                out.append(ast.copy_location(ast.Assign(targets=[first], value=st.value), st))
+                for t_ in st.targets[1:]:
+                    out.append(ast.copy_location(ast.Assign(targets=[t_], value=ast.Name(id=first.id, ctx=ast.Load())), st))
+                continue
+            out.append(st)
+        return out
+    for n in ast.walk(t2):
+        if isinstance(n, (ast.FunctionDef, ast.AsyncFunctionDef)):
+            n.body = split(n.body)
     ast.fix_missing_locations(t2)
     return t2
 
@@ -422,8 +445,31 @@ def builder_loops(tree: ast.Module) -> ast.Module:
     def uses(e, name):
         return any(isinstance(n, ast.Name) and n.id == name for n in ast.walk(e))
 
+    host = [None]
+
+    def fold_locals(body):
+        """`t = E; L.append(t)` inside the loop == `L.append(E)` when t lives only there (one store, every load in this body)"""
+        body = list(body)
+        while len(body) > 1 and isinstance(body[0], ast.Assign) and len(body[0].targets) == 1 and isinstance(body[0].targets[0], ast.Name) and host[0] is not None:
+            t = body[0].targets[0].id
+            stores = [n for n in ast.walk(host[0]) if isinstance(n, ast.Name) and n.id == t and isinstance(n.ctx, (ast.Store, ast.Del))]
+            loads_all = [n for n in ast.walk(host[0]) if isinstance(n, ast.Name) and n.id == t and isinstance(n.ctx, ast.Load)]
+            loads_here = [n for b in body[1:] for n in ast.walk(b) if isinstance(n, ast.Name) and n.id == t and isinstance(n.ctx, ast.Load)]
+            if len(stores) != 1 or len(loads_all) != len(loads_here) or not 1 <= len(loads_here) <= 2:
+                break
+            import copy as _c0
+            val = body[0].value
+
+            class _S(ast.NodeTransformer):
+                def visit_Name(self, n):
+                    return _c0.deepcopy(val) if n.id == t and isinstance(n.ctx, ast.Load) else n
+            body = [_S().visit(b) for b in body[1:]]
+        return body
+
     def shape(st, name, gens):
         """-> (elt, generators) when `st` is a loop nest that only feeds `name`; else None"""
+        if isinstance(st, ast.For) and not st.orelse and len(st.body) > 1:
+            st.body = fold_locals(st.body)
         if isinstance(st, ast.For) and not st.orelse and len(st.body) == 1 and not uses(st.iter, name):
             g = ast.comprehension(target=st.target, iter=st.iter, ifs=[], is_async=0)
             return shape(st.body[0], name, gens + [g])
@@ -487,6 +533,7 @@ def builder_loops(tree: ast.Module) -> ast.Module:
     t2 = _c2.deepcopy(tree)
     for n in ast.walk(t2):
         if isinstance(n, (ast.FunctionDef, ast.AsyncFunctionDef)):
+            host[0] = n
             n.body = block(n.body)
     if changed:
         ast.fix_missing_locations(t2)
@@ -494,8 +541,172 @@ def builder_loops(tree: ast.Module) -> ast.Module:
     return tree
 
 
-def inline_helpers(tree: ast.Module) -> ast.Module:
+def suppress_blocks(tree: ast.Module) -> ast.Module:
+    """`with contextlib.suppress(E1, E2): BODY`  ==>  `try: BODY` / `except (E1, E2): pass`  (that is what it does)"""
+    changed = False
+
+    class T(ast.NodeTransformer):
+        def visit_With(self, n):
+            nonlocal changed
+            self.generic_visit(n)
+            if len(n.items) == 1 and n.items[0].optional_vars is None and isinstance(n.items[0].context_expr, ast.Call):
+                c = n.items[0].context_expr
+                if ast.unparse(c.func) in ("contextlib.suppress", "suppress") and c.args and not c.keywords:
+                    typ = c.args[0] if len(c.args) == 1 else ast.Tuple(elts=list(c.args), ctx=ast.Load())
+                    h = ast.ExceptHandler(type=typ, name=None, body=[ast.copy_location(ast.Pass(), n)])
+                    changed = True
+                    return ast.copy_location(ast.Try(body=n.body, handlers=[ast.copy_location(h, n)], orelse=[], finalbody=[]), n)
+            return n
+    t2 = T().visit(copy.deepcopy(tree))
+    if changed:
+        ast.fix_missing_locations(t2)
+        return t2
+    return tree
+
+
+def loop_guards(tree: ast.Module) -> ast.Module:
+    """Two loop idioms are brought to the form the rules read:
+       for x in xs:                          for x in xs:
+           if c: continue        ==>             if not c:
+           REST                                      REST
+    (a guard clause at the top level of a loop body is the nested `if` with the negated test), and
+       while True:                           _again = True
+           BODY                  ==>         while _again:
+           if not C: break                       BODY
+                                                 _again = C
+    (a loop that tests at the end of each iteration).  Only when the body has no other break / continue at that level."""
+    changed = False
+    counter = [0]
+
+    def own_exits(stmts, kinds):
+        """break/continue statements that belong to THIS loop (not to a nested loop or function)"""
+        out = []
+
+        def go(n):
+            if isinstance(n, kinds):
+                out.append(n)
+            if isinstance(n, (ast.For, ast.While, ast.FunctionDef, ast.AsyncFunctionDef, ast.Lambda, ast.ClassDef)):
+                return
+            for c in ast.iter_child_nodes(n):
+                go(c)
+        for st in stmts:
+            if isinstance(st, (ast.For, ast.While)):
+                for c in st.orelse:
+                    go(c)
+                continue
+            go(st)
+        return out
+
+    def fold_continue(body):
+        nonlocal changed
+        for i, st in enumerate(body):
+            if isinstance(st, ast.If) and not st.orelse and len(st.body) > 1 and isinstance(st.body[-1], ast.Continue) and body[i + 1:]:
+                # `if c: A; continue` + REST  ==>  `if c: A else: REST`
+                rest = fold_continue(body[i + 1:])
+                new = ast.copy_location(ast.If(test=st.test, body=st.body[:-1], orelse=rest), st)
+                changed = True
+                return body[:i] + [new]
+            if isinstance(st, ast.If) and not st.orelse and len(st.body) == 1 and isinstance(st.body[0], ast.Continue) and body[i + 1:]:
+                rest = fold_continue(body[i + 1:])
+                neg = st.test.operand if isinstance(st.test, ast.UnaryOp) and isinstance(st.test.op, ast.Not) else ast.UnaryOp(op=ast.Not(), operand=st.test)
+                if isinstance(st.test, ast.Compare) and len(st.test.ops) == 1:
+                    flip = {ast.In: ast.NotIn, ast.NotIn: ast.In, ast.Is: ast.IsNot, ast.IsNot: ast.Is, ast.Eq: ast.NotEq, ast.NotEq: ast.Eq}
+                    for a_, b_ in flip.items():
+                        if isinstance(st.test.ops[0], a_):
+                            neg = ast.Compare(left=st.test.left, ops=[b_()], comparators=st.test.comparators)
+                            break
+                new = ast.copy_location(ast.If(test=ast.copy_location(neg, st.test), body=rest, orelse=[]), st)
+                changed = True
+                return body[:i] + [new]
+        return body
+
+    def visit_block(stmts):
+        nonlocal changed
+        out = []
+        for st in stmts:
+            for f_ in ("body", "orelse", "finalbody"):
+                b = getattr(st, f_, None)
+                if isinstance(b, list) and b and isinstance(b[0], ast.stmt) and not isinstance(st, ast.ClassDef):
+                    setattr(st, f_, visit_block(b))
+            if isinstance(st, ast.Try):
+                for h in st.handlers:
+                    h.body = visit_block(h.body)
+            if isinstance(st, (ast.For, ast.While)):
+                # guard clauses: only `continue`s that are the guards themselves
+                conts = own_exits(st.body, (ast.Continue,))
+                guards_ = [x for x in st.body if isinstance(x, ast.If) and not x.orelse and isinstance(x.body[-1], ast.Continue)]
+                if conts and len(conts) == len(guards_) and all(any(c is g.body[-1] for g in guards_) for c in conts) and st.body[-1] not in guards_:
+                    st.body = fold_continue(st.body)
+            if isinstance(st, ast.While) and isinstance(st.test, ast.Constant) and st.test.value is True and not st.orelse and len(st.body) >= 2:
+                last = st.body[-1]
+                brks = own_exits(st.body, (ast.Break,))
+                conts = own_exits(st.body, (ast.Continue,))
+                if isinstance(last, ast.If) and not last.orelse and len(last.body) == 1 and isinstance(last.body[0], ast.Break) and len(brks) == 1 and not conts \
+                        and not any(isinstance(x, ast.Return) for b in st.body for x in ast.walk(b)):
+                    counter[0] += 1
+                    flag = f"_again{counter[0]}"
+                    t = last.test
+                    cont = t.operand if isinstance(t, ast.UnaryOp) and isinstance(t.op, ast.Not) else ast.UnaryOp(op=ast.Not(), operand=t)
+                    init = ast.copy_location(ast.Assign(targets=[ast.Name(id=flag, ctx=ast.Store())], value=ast.Constant(value=True)), st)
+                    upd = ast.copy_location(ast.Assign(targets=[ast.Name(id=flag, ctx=ast.Store())], value=cont), last)
+                    st.test = ast.copy_location(ast.Name(id=flag, ctx=ast.Load()), st.test)
+                    st.body = st.body[:-1] + [upd]
+                    out.append(init)
+                    changed = True
+            out.append(st)
+        return out
+
+    t2 = copy.deepcopy(tree)
+    for n in ast.walk(t2):
+        if isinstance(n, (ast.FunctionDef, ast.AsyncFunctionDef)):
+            n.body = visit_block(n.body)
+    if changed:
+        ast.fix_missing_locations(t2)
+        return t2
+    return tree
+
+
+def search_helpers(tree: ast.Module) -> ast.Module:
+    """A helper (a name no rule knows) whose whole body is a first-match search
+           for T in IT:  if P: return E          [return D]
+    ==> `return next((E for T in IT if P), D)`: an expression helper, which inline_helpers then writes out at its call
+    sites, where core/search.py reads it as the `next(...)` form of the search."""
     voc = vocab()
+    changed = False
+    t2 = copy.deepcopy(tree)
+    for n in ast.walk(t2):
+        if not isinstance(n, ast.FunctionDef) or n.name in voc or n.name.startswith("__"):
+            continue
+        body = _body(n)
+        if not (1 <= len(body) <= 2 and isinstance(body[0], ast.For) and not body[0].orelse and len(body[0].body) == 1):
+            continue
+        lp = body[0]
+        inner = lp.body[0]
+        if not (isinstance(inner, ast.If) and not inner.orelse and len(inner.body) == 1 and isinstance(inner.body[0], ast.Return) and inner.body[0].value is not None):
+            continue
+        dflt = ast.Constant(value=None)
+        if len(body) == 2:
+            if not (isinstance(body[1], ast.Return)):
+                continue
+            dflt = body[1].value if body[1].value is not None else dflt
+        if sum(1 for x in ast.walk(n) if isinstance(x, (ast.Return, ast.For, ast.While, ast.Break, ast.Continue, ast.Yield, ast.YieldFrom))) != 1 + len(body):
+            continue
+        gen = ast.GeneratorExp(elt=inner.body[0].value, generators=[ast.comprehension(target=lp.target, iter=lp.iter, ifs=[inner.test], is_async=0)])
+        new = ast.Return(value=ast.Call(func=ast.Name(id="next", ctx=ast.Load()), args=[gen, dflt], keywords=[]))
+        ast.copy_location(new, lp)
+        doc = n.body[:len(n.body) - len(body)]
+        n.body = doc + [new]
+        changed = True
+    if changed:
+        ast.fix_missing_locations(t2)
+        return t2
+    return tree
+
+
+def inline_helpers(tree: ast.Module, force: frozenset = frozenset()) -> ast.Module:
+    """`force`: helper names inlined although the rules know them by name -- used by rules that read ONE normal form (the
+    inlined one) of a host function, so that 'helper present' and 'helper written out in the host' are the same to them."""
+    voc = vocab() - set(force)
     # candidates: module-level functions and methods of module-level classes
     cands: dict[tuple[str | None, str], ast.FunctionDef] = {}
     for n in tree.body:
